@@ -861,7 +861,9 @@ class CircuitTemplate(AbstractBaseTemplate):
             # edges are grouped (the grouped edges carry the labels of the vectorized nodes)
             for i, (source, target, template, edge_dict, delayed) in enumerate(old_edges):
                 if (source, target) in edge_values:
-                    old_edges[i] = (source, target, template, dict(edge_dict, **edge_values[(source, target)]), delayed)
+                    edge_dict = dict(edge_dict, **edge_values[(source, target)])
+                    # (whether the edge is delayed is decided by the values it is translated with)
+                    old_edges[i] = (source, target, template, edge_dict, bool(edge_dict.get('delay')))
                     applied_edge_values.add((source, target))
         edge_col = self._group_edges(edges=old_edges)
 
